@@ -93,17 +93,41 @@ func cqBytes(s string) string {
 			break
 		}
 	}
-	if safe {
+	if safe && len(b) <= 4000 {
 		return `(s2b "` + s + `")`
+	}
+	if safe {
+		var chunks []string
+		for i := 0; i < len(s); i += 4000 {
+			j := i + 4000
+			if j > len(s) {
+				j = len(s)
+			}
+			chunks = append(chunks, `s2b "`+s[i:j]+`"`)
+		}
+		return "(" + strings.Join(chunks, " ++ ") + ")"
 	}
 	if len(b) == 0 {
 		return "(@nil N)"
 	}
-	parts := make([]string, len(b))
-	for i, c := range b {
-		parts[i] = strconv.Itoa(int(c))
+	// long values in chunks: a list literal of tens of thousands of elements overflows the assistant's parser stack
+	const chunk = 400
+	var chunks []string
+	for i := 0; i < len(b); i += chunk {
+		j := i + chunk
+		if j > len(b) {
+			j = len(b)
+		}
+		parts := make([]string, j-i)
+		for k, c := range b[i:j] {
+			parts[k] = strconv.Itoa(int(c))
+		}
+		chunks = append(chunks, "["+strings.Join(parts, ";")+"]%N")
 	}
-	return "[" + strings.Join(parts, ";") + "]%N"
+	if len(chunks) == 1 {
+		return chunks[0]
+	}
+	return "(" + strings.Join(chunks, " ++ ") + ")"
 }
 
 func cqList(items []string) string { return "[" + strings.Join(items, "; ") + "]" }
